@@ -969,13 +969,33 @@ class Prover:
                 self._phi_stack.add(key)
                 try:
                     r = None
+                    shrinking = False
                     for p, v in self.se.phi_inputs[key].items():
-                        if strip(v)[0] == "uninit":
+                        sv = strip(v)
+                        if sv[0] == "uninit":
+                            continue
+                        # a view of the joined slice itself (`s = &s[2..]` on the way round a loop):
+                        # never longer than what it is a view of
+                        y = sv
+                        while y[0] in ("subslice", "deref", "ref", "refv") or (util.is_call(y) and (y[1].endswith("::index") or y[1].endswith("::index_mut")) and len(y[2]) == 2):
+                            y = strip(y[2][0]) if y[0] == "call" else strip(y[1])
+                        if y == x and sv != x:
+                            shrinking = True
                             continue
                         r = join(r, self.len_range(v, None, d + 1))
+                    if shrinking and r is not None:
+                        r = (0, r[1])
                     return r if r is not None else (0, INF)
                 finally:
                     self._phi_stack.discard(key)
+        if k == "subslice" and isinstance(x[2], int) and isinstance(x[3], int):
+            # `&s[a..]`, `&s[a..b]`, `[_, _, rest @ ..]`: (from, to, counted from the end?)
+            b_ = self.len_range(x[1], bb, d + 1)
+            if x[4]:
+                return (max(0, b_[0] - x[2] - x[3]), max(0, b_[1] - x[2] - x[3]) if b_[1] != INF else INF)
+            return (max(0, x[3] - x[2]), max(0, x[3] - x[2]))
+        if k == "deref":
+            return self.len_range(x[1], bb, d + 1)
         tl = self._typed_len(x)
         if tl is not None:
             return tl
